@@ -160,6 +160,8 @@ impl Subst {
             }
             (Ty::Bool, Ty::Bool) | (Ty::Char, Ty::Char) | (Ty::Str, Ty::Str) | (Ty::Unit, Ty::Unit) | (Ty::Ordering, Ty::Ordering) => Ok(()),
             (Ty::Slice(x), Ty::Slice(y)) => self.unify(x, y),
+            // a str and its bytes are the same value in the embedding (rustc has already type-checked the source)
+            (Ty::Str, Ty::Slice(x)) | (Ty::Slice(x), Ty::Str) => self.unify(x, &Ty::Int(IntTy::U8)),
             (Ty::Ptr(x), Ty::Ptr(y)) => self.unify(x, y),
             (Ty::Option(x), Ty::Option(y)) => self.unify(x, y),
             (Ty::Result(x1, x2), Ty::Result(y1, y2)) => {
